@@ -18,7 +18,8 @@ Reset == /\ l <= Len(Trace) /\ Trace[l].ev = "reset"
 Act ==
   /\ l <= Len(Trace) /\ Trace[l].ev = "act"
   /\ LET e == Trace[l]
-         upd == e.a \in {"Local", "Remote", "Getter", "LocalRace", "RemoteSub", "RemoteUnsub"} /\ ~e.skipped
+         race == e.a = "RemoteRace" /\ ~e.skipped
+         upd == (race \/ e.a \in {"Local", "Remote", "Getter", "LocalRace", "RemoteSub", "RemoteUnsub"}) /\ ~e.skipped
          prev == IF upd THEN val[e.ch] ELSE 0
          new == IF upd THEN e.val[e.ch] ELSE 0
          changed == upd /\ new # prev
@@ -33,9 +34,17 @@ Act ==
          expected == IF changed
                      THEN {c \o "|" \o e.ch \o "|" \o Num(new) : c \in {x \in open2 : x # origin /\ <<x, e.ch>> \in want}}
                      ELSE {}
+         \* two writers of the same new value at the same time (RemoteRace): one write is the change, the other is none
+         key(x) == x \o "|" \o e.ch \o "|" \o Num(new)
+         cnt(x) == Cardinality({i \in 1..Len(e.got) : e.got[i] = key(x)})
+         listening == {x \in open2 : <<x, e.ch>> \in want}
      IN
-     /\ Report("ExactlyOnce", SetOf(e.got) = expected)
-     /\ Report("ExactlyOnce", Len(e.got) = Cardinality(SetOf(e.got)))
+     /\ (~race => /\ Report("ExactlyOnce", SetOf(e.got) = expected)
+                  /\ Report("ExactlyOnce", Len(e.got) = Cardinality(SetOf(e.got))))
+     /\ (race => /\ Report("ExactlyOnce", \A x \in listening \ {e.c, e.d} : cnt(x) = (IF changed THEN 1 ELSE 0))
+                 /\ Report("ExactlyOnce", SetOf(e.got) \subseteq {key(x) : x \in listening})
+                 /\ Report("ExactlyOnce", cnt(e.c) + cnt(e.d) <= 1)
+                 /\ Report("ExactlyOnce", (changed /\ {e.c, e.d} \subseteq listening) => cnt(e.c) + cnt(e.d) = 1))
      /\ Report("NoAppPanic", ~e.panic)
      /\ Report("FenceAnswered", Len(e.fenceErr) = 0)
      /\ open' = open2 /\ want' = want2 /\ val' = e.val
